@@ -10,7 +10,7 @@ from vt import npmodel as N
 from vt.verify import Clause
 from contracts import gmm as G
 from contracts import kmeans as KM
-from props.common import new_interp, collapse, guard
+from props.common import new_interp, collapse, guard, bounded
 
 FUNCTIONS = ["kmeans.KMeansMachine.initialize", "gmm.GMMMachine.initialize_gaussians", "factor_analysis.FactorAnalysisBase.create_UVD",
              "gmm.e_step", "kmeans.e_step", "every module (scan for writes to module state)"]
@@ -182,6 +182,8 @@ def perm(ctx):
     return out
 
 
+BOUNDED = [bounded("fa_repro.py", "perm_relabel", "C16.perm-relabel.fa",
+                   "ISV/JFA: presenting the labelled statistics in another order, or renaming the class ids by a permutation of 0..K-1, gives exactly the same U, V, D")]
 GROUPS = [guard(rng_kmeans), guard(rng_gmm), guard(rng_fa), guard(noglobals), guard(perm)]
 SHARED = []
 REPLAY = [("C16", "effects_repro.py", "determinism", {})]
